@@ -287,6 +287,12 @@ def onEvent (p : Params) (s : St) (b : Book) (o : Obs) (_ : Book) : St × List V
     let oc := fun k => p.outcomes.getD k 0
     let expect := if p.kind == "result" then executed else executed.filter (fun k => oc k != 0)
     let v1 := if items.length != expect.length then [s!"batch {bid} stream delivered {items.length} items, expected one per executed item = {expect.length}"] else []
+    let unnamed := fun (k : Nat) => p.noIdBatch && k % 3 == 1
+    let gens := items.filter (fun it => it.id.startsWith "g:gen")
+    let v3 := if p.kind != "result" then []   -- only result streams carry job ids
+              else if (expect.filter unnamed).length != gens.length then [s!"batch {bid}: {(expect.filter unnamed).length} executed items had no ID of their own but {gens.length} stream entries carry a generated ID"]
+              else if (gens.map (·.id)).eraseDups.length != gens.length then [s!"batch {bid}: two stream entries carry the same generated ID"] else []
+    let expect := expect.filter (fun k => !unnamed k)
     let v2 := if p.kind == "result" then
         expect.foldl (fun vs k =>
           let id := s!"g:id{k}"
@@ -295,7 +301,7 @@ def onEvent (p : Params) (s : St) (b : Book) (o : Obs) (_ : Book) : St × List V
                     else if oc k != 0 && it.err == "nil" then vs ++ [s!"batch item {k} failed but its stream entry has no error"] else vs
           | l => vs ++ [s!"batch {bid}: {l.length} stream entries tagged {id}"]) []
       else []
-    (s, v1 ++ v2)
+    (s, v1 ++ v2 ++ v3)
   | .crash m => (s, [s!"process crashed: {m}"])
   | _ => (s, [])
 
@@ -364,7 +370,9 @@ def onEvent (p : Params) (_ : Unit) (b : Book) (o : Obs) (_ : Book) : Unit × Li
     ((), (if !expectErr oc k e then [s!"Result/Err of job {k} (outcome {oc}) returned error {e}"] else [])
       ++ (if p.kind == "result" && oc == 0 && v != (k * 10 + 7 : Nat) then [s!"Result of job {k} returned {v}, its worker function returned {k * 10 + 7}"] else []))
   | .enter _ k id =>
-    ((), if id != s!"id{k}" && !(id.startsWith "gen") && id != s!"g:id{k}" then [s!"job {k} reached the worker function with id {id}"] else [])
+    -- single jobs: the given id or one of the generator; batch items: "g:" + that
+    ((), if id != s!"id{k}" && !(id.startsWith "gen") && id != s!"g:id{k}" && !(p.noIdBatch && k % 3 == 1 && id.startsWith "g:gen")
+         then [s!"job {k} reached the worker function with id {id}"] else [])
   | .crash m => ((), [s!"process crashed: {m}"])
   | _ => ((), [])
 
